@@ -209,9 +209,9 @@ async fn replay_c14_reconnect_under_sustained_traffic() {
     tokio::time::sleep(Duration::from_millis(30)).await;
     let listener = TcpListener::bind(address).await.unwrap();
     let mut log = Vec::new();
-    // the peer is up now; keep handing messages over every 20 ms (five times faster than the back-off) for 2.5 s
+    // the peer is up now; keep handing messages over every 20 ms (five times faster than the back-off) for as long as we wait (6 s)
     let feeder = tokio::spawn(async move {
-        for i in 1..125 {
+        for i in 1..320 {
             let (s, r) = oneshot::channel();
             if tx.send(InnerMessage { data: Bytes::from(format!("m{}", i)), cancel_handler: s }).await.is_err() { break; }
             handles.push(r);
@@ -219,10 +219,10 @@ async fn replay_c14_reconnect_under_sustained_traffic() {
         }
         handles
     });
-    let got = timeout(Duration::from_millis(2500), peer_session(&listener, 1, &mut log)).await;
-    let _keep = feeder.await;
+    let got = timeout(Duration::from_millis(6000), peer_session(&listener, 1, &mut log)).await;
+    feeder.abort();     // (the handles die with the feeder; nothing is checked about them here)
     if got.is_err() || log.first().map(|s| s.as_str()) != Some("m0") {
-        println!("FAILING-INPUT property=C14 connect fails once, the peer comes up 30 ms later, one message is handed over every 20 ms (back-off 100 ms): after 2.5 s the peer has received {:?} (expected the first message m0 first)", log.first());
+        println!("FAILING-INPUT property=C14 connect fails once, the peer comes up 30 ms later, one message is handed over every 20 ms (back-off 100 ms): after 6 s the peer has received {:?} (expected the first message m0 first)", log.first());
         panic!("no reconnect under sustained traffic");
     }
 }
